@@ -273,9 +273,13 @@ class _CustomBase:
             return (tuple(self.children), mk_meta(self.meta), tuple(range(len(self.children) + 1)))
         if self.fault == 'entshort':      # fewer entries than children
             return (tuple(self.children), mk_meta(self.meta), tuple(range(max(len(self.children) - 1, 0))))
+        # the registration contract asks for ITERABLES of children / entries: vary the representation (tuple, list, lazy
+        # iterator without __len__) as a function of model-visible data, so that runs are reproducible
+        rep = (len(self.children) + (self.meta if isinstance(self.meta, int) else 0)) % 3
+        wrap = (tuple, list, iter)[rep]
         if self.HASENT:
-            return (tuple(self.children), mk_meta(self.meta), tuple(mk_key(e) for e in self.ent))
-        return (tuple(self.children), mk_meta(self.meta))
+            return (wrap(tuple(self.children)), mk_meta(self.meta), wrap(tuple(mk_key(e) for e in self.ent)))
+        return (wrap(tuple(self.children)), mk_meta(self.meta))
 
     @classmethod
     def tree_unflatten(cls, meta, children):
